@@ -638,7 +638,7 @@ fn answer(outcome: Result<(), PanicKind>, m: &Matrix<u64>) -> String {
 }
 
 /// Applies one operation line to `m` (allocating operations replace `*m` by their result).
-fn apply(m: &mut Matrix<u64>, toks: &[&str]) -> Option<Result<(), PanicKind>> {
+pub(crate) fn apply(m: &mut Matrix<u64>, toks: &[&str]) -> Option<Result<(), PanicKind>> {
     let us = |i: usize| toks[i].parse::<usize>().expect("usize");
     let val = |i: usize| toks[i].parse::<u64>().expect("u64");
     Some(match toks[0] {
